@@ -72,6 +72,8 @@ impl PartialEq for Record {
 #[derive(Debug)]
 pub struct SetStatus {
     pub cas: u64,
+    /// size of the record this store replaced, 0 if there was none
+    pub replaced: usize,
 }
 
 /// Read only view over a store
@@ -88,8 +90,9 @@ pub mod impl_details {
         //
         fn get_by_key(&self, key: &KeyType) -> Result<Record>;
 
-        //
-        fn check_if_expired(&self, key: &KeyType, record: &Record) -> bool;
+        // None while record is alive; once it has expired whatever expired
+        // record is still stored under key is dropped and its size returned
+        fn check_if_expired(&self, key: &KeyType, record: &Record) -> Option<usize>;
     }
 }
 
@@ -103,7 +106,7 @@ pub trait Cache: impl_details::CacheImplDetails {
         let result = self.get_by_key(key);
         match result {
             Ok(record) => {
-                if self.check_if_expired(key, &record) {
+                if self.check_if_expired(key, &record).is_some() {
                     return Err(CacheError::NotFound);
                 }
                 Ok(record)
